@@ -22,7 +22,7 @@ import cirq
 import sympy
 
 from mc import core
-from mc.core import Res, StageResult, CustomStage
+from mc.core import Res, StageResult, CustomStage, bad, good
 
 PROPERTY = "C05"
 LEVEL = "model_checking"
@@ -941,6 +941,209 @@ def make_stage(name, events, depth, inits):
     return CustomStage(name, ex, rp)
 
 
+# ---------------------------------------------------------------------------------------------
+# Moment algebra and FrozenCircuit views (exhaustive case lists)
+
+MOMENT_BASES = [
+    ("Moment()", lambda: cirq.Moment()),
+    ("Moment(X(a))", lambda: cirq.Moment(mk(0))),
+    ("Moment(X(a),Y(b))", lambda: cirq.Moment(mk(0), mk(1))),
+    ("Moment(M(a;m),Z(c)?m)", lambda: cirq.Moment(mk(5), mk(9))),
+    ("Moment().with_operation(CZ(a,b))", lambda: cirq.Moment().with_operation(mk(3))),
+    ("Moment(X(a)).with_operation(M(b;m))", lambda: cirq.Moment(mk(0)).with_operation(mk(6))),
+    ("Moment(X(a)).with_operations(Y(b),Z(c)?m)", lambda: cirq.Moment(mk(0)).with_operations(mk(1), mk(9))),
+    ("Moment(X(a),Y(b),Z(c)).without(b)", lambda: cirq.Moment(mk(0), mk(1), mk(2)).without_operations_touching([b])),
+    ("Moment(M(c;k)).with_tags", lambda: cirq.Moment(mk(7)).with_tags("mt")),
+    ("Moment(GP,X(a))", lambda: cirq.Moment(mk(10), mk(0))),
+    ("Moment(X(a)^s)", lambda: cirq.Moment(mk(11))),
+]
+
+
+def _moment_events():
+    ev = []
+    for li in range(NOPS):
+        ev.append(("with_operation", (li,)))
+    for pair in itertools.product(range(NOPS), repeat=2):
+        ev.append(("with_operations", pair))
+        ev.append(("add", pair))
+    for li in range(NOPS):
+        ev.append(("sub", (li,)))
+    ev.append(("sub", (0, 1)))
+    for k in range(4):
+        for sub in itertools.combinations(range(3), k):
+            ev.append(("without", sub))
+            ev.append(("getitem", sub))
+    ev.append(("with_tags", ()))
+    ev.append(("expand_to", (0, 1, 2)))
+    return ev
+
+
+MOMENT_EVENTS = _moment_events()
+
+
+def moment_queries(m):
+    return (m.qubits, cirq.measurement_key_objs(m), cirq.control_keys(m), cirq.is_parameterized(m),
+            frozenset(cirq.parameter_names(m)), tuple(m.operates_on([q]) for q in QUERY_QUBITS),
+            tuple(m.operation_at(q) for q in QUERY_QUBITS), tuple(sorted(opkey(o) for o in m.operations)), len(m),
+            cirq.is_measurement(m), tuple(sorted(map(opkey, m._sorted_operations_()))))
+
+
+def run_moment(case):
+    bi, warm, ei = case
+    base = MOMENT_BASES[bi][1]()
+    if warm:
+        moment_queries(base)  # populate the lazy caches first
+    before_ops = list(base.operations)
+    kind, arg = MOMENT_EVENTS[ei]
+    exp = None
+    exp_exc = None
+    try:
+        if kind == "with_operation":
+            op = mk(arg[0])
+            if set(op.qubits) & set(base.qubits):
+                exp_exc = ValueError
+            exp = before_ops + [op]
+            got = base.with_operation(op)
+        elif kind in ("with_operations", "add"):
+            ops_ = [mk(i) for i in arg]
+            qs = [q for o in before_ops + ops_ for q in o.qubits]
+            if len(qs) != len(set(qs)):
+                exp_exc = ValueError
+            exp = before_ops + ops_
+            got = base.with_operations(*ops_) if kind == "with_operations" else base + ops_
+        elif kind == "sub":
+            ops_ = [mk(i) for i in arg]
+            rest = list(before_ops)
+            for o in ops_:
+                if o in rest:
+                    rest.remove(o)
+                else:
+                    exp_exc = ValueError
+            exp = rest
+            got = base - ops_
+        elif kind == "without":
+            qs = {QUERY_QUBITS[i] for i in arg}
+            exp = [o for o in before_ops if not (set(o.qubits) & qs)]
+            got = base.without_operations_touching(qs)
+        elif kind == "getitem":
+            qs = {QUERY_QUBITS[i] for i in arg}
+            exp = [o for o in before_ops if set(o.qubits) & qs]
+            got = base[list(qs)]
+        elif kind == "with_tags":
+            exp = before_ops
+            got = base.with_tags("zz")
+            if got.tags != base.tags + ("zz",):
+                return bad(f"Moment.with_tags: tags {got.tags}")
+        elif kind == "expand_to":
+            qs = [QUERY_QUBITS[i] for i in arg]
+            exp = before_ops + [cirq.I(q) for q in qs if q not in base.qubits]
+            got = base.expand_to(qs)
+    except Exception as e:  # noqa
+        if exp_exc is not None and isinstance(e, exp_exc):
+            if list(base.operations) != before_ops:
+                return bad("rejected Moment edit modified the receiver")
+            return Res(ok=True, nontrivial=False, counters={"rejected_calls": 1})
+        raise
+    if exp_exc is not None:
+        return bad(f"{MOMENT_BASES[bi][0]} {kind}{arg}: overlapping / missing operations were accepted: {got!r}")
+    if list(base.operations) != before_ops:
+        return bad("Moment edit modified the receiver")
+    fresh = cirq.Moment(exp)
+    if sorted(map(opkey, got.operations)) != sorted(map(opkey, exp)):
+        return bad(f"{MOMENT_BASES[bi][0]} {kind}{arg}: operations {got.operations!r}, expected {exp!r}")
+    if kind in ("with_operation", "with_operations", "add") and [opkey(o) for o in got.operations] != [opkey(o) for o in exp]:
+        return bad(f"{MOMENT_BASES[bi][0]} {kind}{arg}: stored order {got.operations!r}, expected {exp!r}")
+    qg, qf = moment_queries(got), moment_queries(fresh)
+    if qg != qf:
+        i = next(i for i, (x, y) in enumerate(zip(qg, qf)) if x != y)
+        return bad(f"{MOMENT_BASES[bi][0]} (caches {'warm' if warm else 'cold'}) {kind}{arg}: query #{i} = {qg[i]!r}, "
+                   f"a freshly built equal moment answers {qf[i]!r}")
+    if dict(got._qubit_to_op) != dict(fresh._qubit_to_op):
+        return bad(f"{MOMENT_BASES[bi][0]} {kind}{arg}: qubit->operation map inconsistent")
+    if kind != "with_tags" and not got.tags and (got != fresh or hash(got) != hash(fresh)):
+        return bad(f"{MOMENT_BASES[bi][0]} {kind}{arg}: result != Moment(expected ops) or hashes differ")
+    return good()
+
+
+def moment_cases():
+    return [(bi, warm, ei) for bi in range(len(MOMENT_BASES)) for warm in (0, 1) for ei in range(len(MOMENT_EVENTS))]
+
+
+def frozen_queries(fc):
+    n = len(fc)
+    return (fc.all_qubits(), fc.all_measurement_key_objs(), fc.all_measurement_key_names(), cirq.control_keys(fc),
+            cirq.is_parameterized(fc), frozenset(cirq.parameter_names(fc)), fc.has_measurements(), cirq.is_measurement(fc),
+            fc.are_all_measurements_terminal(), tuple(fc.all_operations()), cirq.num_qubits(fc), cirq.qid_shape(fc),
+            cirq.has_unitary(fc), tuple(fc.next_moment_operating_on([q], s) for q in QUERY_QUBITS for s in range(n + 1)))
+
+
+FROZEN_DERIVE = ["freeze", "ctor", "unfreeze_freeze", "add_empty", "mul1", "with_tags_untagged", "double_inverse", "from_moments"]
+
+
+def run_frozen(case):
+    seq, di = case
+    ops_ = [mk(i) for i in seq]
+    live = cirq.Circuit(ops_)
+    ref = rebuild(live).freeze()
+    how = FROZEN_DERIVE[di]
+    if how == "freeze":
+        fc = live.freeze()
+    elif how == "ctor":
+        fc = cirq.FrozenCircuit(ops_)
+    elif how == "unfreeze_freeze":
+        fc = live.freeze().unfreeze().freeze()
+    elif how == "add_empty":
+        fc = live.freeze() + cirq.FrozenCircuit()
+    elif how == "mul1":
+        fc = live.freeze() * 1
+    elif how == "with_tags_untagged":
+        fc = live.freeze().with_tags("x").untagged
+    elif how == "double_inverse":
+        inv = cirq.inverse(live.freeze(), None)
+        if inv is None:
+            return Res(skipped=True, nontrivial=False)
+        fc = cirq.inverse(inv)
+        # inverse of inverse: same operations up to value equality of gates
+    else:
+        fc = cirq.FrozenCircuit.from_moments(*[list(m.operations) for m in live.moments])
+    if not isinstance(fc, cirq.FrozenCircuit):
+        return bad(f"{how}: result is {type(fc).__name__}, not FrozenCircuit")
+    q1 = frozen_queries(fc)
+    q2 = frozen_queries(fc)  # cached answers asked twice
+    if q1 != q2:
+        return bad(f"{how} of {[LNAME[i] for i in seq]}: a cached FrozenCircuit query changed between two calls")
+    if how != "double_inverse":
+        if fc != ref or hash(fc) != hash(ref):
+            return bad(f"{how} of {[LNAME[i] for i in seq]}: frozen circuit != rebuilt frozen circuit or hashes differ\n{fc!r}\n{ref!r}")
+        qr = frozen_queries(ref)
+        if q1 != qr:
+            i = next(i for i, (x, y) in enumerate(zip(q1, qr)) if x != y)
+            return bad(f"{how} of {[LNAME[i] for i in seq]}: query #{i} = {q1[i]!r}, rebuilt frozen circuit answers {qr[i]!r}")
+        ql = queries(live)
+        if (ql[0], ql[1], ql[2], ql[3]) != (q1[0], q1[1], q1[4], q1[5]):
+            return bad(f"{how} of {[LNAME[i] for i in seq]}: frozen and unfrozen views disagree on qubits/keys/parameters")
+    else:
+        if cirq.has_unitary(ref):
+            import numpy as np
+            u1 = cirq.unitary(fc)
+            u2 = cirq.unitary(ref)
+            if not np.allclose(u1, u2, atol=1e-8):
+                return bad(f"inverse(inverse(c)) has a different unitary for {[LNAME[i] for i in seq]}")
+    return good(nontrivial=len(seq) >= 2)
+
+
+def frozen_cases(tier):
+    L = 2 if tier == "quick" else 3
+    letters = list(range(NOPS))
+    out = []
+    for n in range(0, L + 1):
+        for seq in itertools.product(letters, repeat=n):
+            # a control on 'm' needs an earlier measurement of 'm' only at run time; construction is fine
+            for di in range(len(FROZEN_DERIVE)):
+                out.append((seq, di))
+    return out
+
+
 def self_test():
     """Determinism: one recorded history replayed twice gives identical observations."""
     ev = build_events("medium")
@@ -955,13 +1158,15 @@ def stages(tier, seed):
     self_test()
     cev = core_events()
     inits = list(range(len(INITS)))
+    extra = [core.CaseStage("moment_algebra", moment_cases(), run_moment),
+             core.CaseStage("frozen_circuit_views", frozen_cases(tier), run_frozen)]
     if tier == "quick":
-        return [
+        return extra + [
             make_stage("bfs_full_alphabet_depth1", build_events("full"), 1, inits),
             make_stage("bfs_medium_alphabet_depth2", build_events("medium"), 2, inits[:2]),
             make_stage("bfs_core_alphabet_depth3", cev, 3, inits[:3]),
         ]
-    return [
+    return extra + [
         make_stage("bfs_full_alphabet_depth2", build_events("full"), 2, inits),
         make_stage("bfs_core_alphabet_depth4", cev, 4, inits),
     ]
